@@ -16,7 +16,7 @@ PROP = Property(
                     wraps=["ares_rand_bytes"],
                     ml_srcs=["ocaml/gen/%s.ml" % m for (_, _, m) in KINDS] + ["ocaml/dsa_reg.ml"]
                             + ["ocaml/dsa_%s.ml" % k for (k, _, _) in KINDS] + ["ocaml/dsa_drv.ml"],
-                    gen=opsgen.gen, n_quick=1500, n_thorough=10000)],
+                    gen=opsgen.gen, n_quick=1500, n_thorough=30000)],
     trusted_base=["Coq 8.16.1 kernel + coqc (vm_compute; no native_compute)",
                   "extraction (ExtrOcamlBasic only, no Extract Constant) + OCaml 4.13.1",
                   "gen/regen.py constants (ARES__ARRAY_MIN, ARES__HTABLE_*, status codes) compiled against the working tree",
